@@ -253,6 +253,23 @@ func main() {
 			b = a[:r.Intn(len(a)+1)]
 			t.Count("str.prefix")
 		}
+		switch r.Intn(6) {
+		case 0: // same length, some bytes differ only in bit 5 (the letter-case bit) — letters or not
+			bb := []byte(a)
+			for k := range bb {
+				if r.Intn(3) == 0 {
+					bb[k] ^= 0x20
+				}
+			}
+			b = string(bb)
+			t.Count("str.bit5-variant")
+		case 1: // common prefix, then two bytes around the edges of the letter ranges
+			edge := "@AZ[\\]^_`az{ 0\x00\x7f\xc1\xe1"
+			pre := a[:r.Intn(len(a)+1)]
+			a = pre + string(edge[r.Intn(len(edge))]) + rbytes(r, 2, alpha)
+			b = pre + string(edge[r.Intn(len(edge))]) + rbytes(r, 2, alpha)
+			t.Count("str.edge-pair")
+		}
 		lo, up := str.ToLower(a), str.ToUpper(a)
 		t.Q("lower "+lib.X(a), lib.X(lo))
 		t.Q("upper "+lib.X(a), lib.X(up))
